@@ -1,56 +1,71 @@
 package in_toto
 
-// C17 beyond ASCII: patterns and names over one- and two-byte UTF-8 characters
-// (U+0000..U+07FF).  The reference semantics are over characters: `?`, a class
+// C17 beyond ASCII: patterns and names over UTF-8 characters of one to four bytes
+// (vhUTF8Max selects the alphabet).  The reference semantics are over characters: `?`, a class
 // and `*` consume whole characters, a literal is a whole character.
 
 func init() {
 	vhRegister("vh_C17_utf8", vh_C17_utf8)
 	vhRegister("vh_C17_utf8_starclass", vh_C17_utf8_starclass)
 	vhRegister("vh_C17_utf8_3", vh_C17_utf8_3)
+	vhRegister("vh_C17_utf8_4", vh_C17_utf8_4)
 }
 
-// vhValidUTF8: s is a sequence of ASCII bytes and two-byte characters (lead 0xC2..0xDF, continuation 0x80..0xBF).
+// vhUTF8Max: widest character of the alphabet in bytes (2: U+0000..U+07FF, 3: ..U+FFFF without
+// surrogates, 4: ..U+10FFFF)
+var vhUTF8Max = 2
+
+// vhValidUTF8: s is a sequence of well-formed characters of at most vhUTF8Max bytes.
 func vhValidUTF8(s string) bool {
 	n := len(s)
-	v := make([]bool, n+3)
+	v := make([]bool, n+4)
 	v[n] = true
+	cont := func(k int) bool { return vAnd(vLeByte(0x80, s[k]), vLeByte(s[k], 0xbf)) }
 	for i := n - 1; i >= 0; i-- {
-		one := vAnd(vLeByte(s[i], 0x7f), v[i+1])
-		two := false
+		ok := vAnd(vLeByte(s[i], 0x7f), v[i+1])
 		if i+1 < n {
-			two = vAnd(vAnd(vAnd(vLeByte(0xc2, s[i]), vLeByte(s[i], 0xdf)), vAnd(vLeByte(0x80, s[i+1]), vLeByte(s[i+1], 0xbf))), v[i+2])
+			ok = vOr(ok, vAnd(vAnd(vAnd(vLeByte(0xc2, s[i]), vLeByte(s[i], 0xdf)), cont(i+1)), v[i+2]))
 		}
-		three := false
-		if i+2 < n && vhThreeByte {
+		if i+2 < n && vhUTF8Max >= 3 {
 			lead := vAnd(vLeByte(0xe0, s[i]), vLeByte(s[i], 0xef))
 			// second byte: E0 -> A0..BF, ED -> 80..9F (no surrogates), otherwise 80..BF
 			lo2 := vIteByte(vEqByte(s[i], 0xe0), 0xa0, 0x80)
 			hi2 := vIteByte(vEqByte(s[i], 0xed), 0x9f, 0xbf)
 			b2ok := vAnd(vLeByte(lo2, s[i+1]), vLeByte(s[i+1], hi2))
-			b3ok := vAnd(vLeByte(0x80, s[i+2]), vLeByte(s[i+2], 0xbf))
-			three = vAnd(vAnd(lead, vAnd(b2ok, b3ok)), v[i+3])
+			ok = vOr(ok, vAnd(vAnd(lead, vAnd(b2ok, cont(i+2))), v[i+3]))
 		}
-		v[i] = vOr(one, vOr(two, three))
+		if i+3 < n && vhUTF8Max >= 4 {
+			lead := vAnd(vLeByte(0xf0, s[i]), vLeByte(s[i], 0xf4))
+			// second byte: F0 -> 90..BF, F4 -> 80..8F, otherwise 80..BF
+			lo2 := vIteByte(vEqByte(s[i], 0xf0), 0x90, 0x80)
+			hi2 := vIteByte(vEqByte(s[i], 0xf4), 0x8f, 0xbf)
+			b2ok := vAnd(vLeByte(lo2, s[i+1]), vLeByte(s[i+1], hi2))
+			ok = vOr(ok, vAnd(vAnd(lead, vAnd(b2ok, vAnd(cont(i+2), cont(i+3)))), v[i+4]))
+		}
+		v[i] = ok
 	}
 	return v[0]
 }
 
-// vhThreeByte: three-byte characters (U+0800..U+FFFF without surrogates) are part of the alphabet
-var vhThreeByte bool
-
-func vhIsTwo(s string, j int) bool {
-	if vhThreeByte {
-		return vAnd(vLeByte(0x80, s[j]), vLeByte(s[j], 0xdf))
-	}
-	return vLeByte(0x80, s[j])
-}
-func vhIsThree(s string, j int) bool {
-	if !vhThreeByte {
+// vhIsW: the character that starts at byte j (a character boundary of a valid string) is w bytes wide.
+func vhIsW(s string, j, w int) bool {
+	if w > vhUTF8Max {
 		return false
 	}
-	return vLeByte(0xe0, s[j])
+	switch w {
+	case 1:
+		return vLeByte(s[j], 0x7f)
+	case 2:
+		return vAnd(vLeByte(0x80, s[j]), vLeByte(s[j], 0xdf))
+	case 3:
+		return vAnd(vLeByte(0xe0, s[j]), vLeByte(s[j], 0xef))
+	}
+	return vLeByte(0xf0, s[j])
 }
+
+func vhIsTwo(s string, j int) bool   { return vhIsW(s, j, 2) }
+func vhIsThree(s string, j int) bool { return vhIsW(s, j, 3) }
+func vhIsFour(s string, j int) bool  { return vhIsW(s, j, 4) }
 
 // vhRuneAt: the character that starts at byte j (a character boundary of a valid string).
 func vhRuneAt(s string, j int) int {
@@ -59,9 +74,13 @@ func vhRuneAt(s string, j int) int {
 		two := (int(s[j])&0x1f)<<6 | int(s[j+1])&0x3f
 		r = vIteInt(vhIsTwo(s, j), two, r)
 	}
-	if j+2 < len(s) && vhThreeByte {
+	if j+2 < len(s) && vhUTF8Max >= 3 {
 		three := (int(s[j])&0x0f)<<12 | (int(s[j+1])&0x3f)<<6 | int(s[j+2])&0x3f
 		r = vIteInt(vhIsThree(s, j), three, r)
+	}
+	if j+3 < len(s) && vhUTF8Max >= 4 {
+		four := (int(s[j])&0x07)<<18 | (int(s[j+1])&0x3f)<<12 | (int(s[j+2])&0x3f)<<6 | int(s[j+3])&0x3f
+		r = vIteInt(vhIsFour(s, j), four, r)
 	}
 	return r
 }
@@ -82,23 +101,22 @@ func vspecClassChar(p string, k int) []vspecChar {
 	c := p[k]
 	esc := vEqByte(c, '\\')
 	plainOK := vAnd(vNot(esc), vNot(vOr(vEqByte(c, '-'), vEqByte(c, ']'))))
-	// unescaped
-	one := func(q int) bool { return vAnd(vNot(vhIsTwo(p, q)), vNot(vhIsThree(p, q))) }
-	out = append(out, vspecChar{vAnd(plainOK, one(k)), int(c), k + 1})
-	if k+1 < m {
-		out = append(out, vspecChar{vAnd(plainOK, vhIsTwo(p, k)), vhRuneAt(p, k), k + 2})
-	}
-	if k+2 < m && vhThreeByte {
-		out = append(out, vspecChar{vAnd(plainOK, vhIsThree(p, k)), vhRuneAt(p, k), k + 3})
-	}
-	// escaped
-	if k+1 < m {
-		out = append(out, vspecChar{vAnd(esc, one(k+1)), int(p[k+1]), k + 2})
-		if k+2 < m {
-			out = append(out, vspecChar{vAnd(esc, vhIsTwo(p, k+1)), vhRuneAt(p, k+1), k + 3})
+	for w := 1; w <= vhUTF8Max; w++ {
+		// unescaped
+		if k+w-1 < m {
+			r := int(c)
+			if w > 1 {
+				r = vhRuneAt(p, k)
+			}
+			out = append(out, vspecChar{vAnd(plainOK, vhIsW(p, k, w)), r, k + w})
 		}
-		if k+3 < m && vhThreeByte {
-			out = append(out, vspecChar{vAnd(esc, vhIsThree(p, k+1)), vhRuneAt(p, k+1), k + 4})
+		// escaped
+		if k+w < m {
+			r := int(p[k+1])
+			if w > 1 {
+				r = vhRuneAt(p, k+1)
+			}
+			out = append(out, vspecChar{vAnd(esc, vhIsW(p, k+1, w)), r, k + 1 + w})
 		}
 	}
 	return out
@@ -108,7 +126,7 @@ func vspecClassChar(p string, k int) []vspecChar {
 // negation) and the rest of the pattern matches after it (mNext[e]).
 func vspecClassAtU(p string, i int, ch int, mNext []bool) bool {
 	m := len(p)
-	tab := make([][2]vspecCls, m+10)
+	tab := make([][2]vspecCls, m+12)
 	get := func(k, st int) vspecCls {
 		if k >= m {
 			return vspecCls{false, false, false}
@@ -157,9 +175,9 @@ func vspecClassAtU(p string, i int, ch int, mNext []bool) bool {
 // vspecGlobU: well-formed and matches the whole name, character-wise.
 func vspecGlobU(p, s string) bool {
 	m, n := len(p), len(s)
-	M := make([][]bool, m+6)
+	M := make([][]bool, m+7)
 	for i := range M {
-		M[i] = make([]bool, n+5)
+		M[i] = make([]bool, n+6)
 	}
 	for j := 0; j <= n; j++ {
 		M[m][j] = j == n
@@ -172,34 +190,32 @@ func vspecGlobU(p, s string) bool {
 			if j < n {
 				// after the name character that starts at j
 				after := func(row []bool) bool {
-					r := vAnd(vAnd(vNot(vhIsTwo(s, j)), vNot(vhIsThree(s, j))), row[j+1])
-					if j+2 <= n {
-						r = vOr(r, vAnd(vhIsTwo(s, j), row[j+2]))
-					}
-					if j+3 <= n {
-						r = vOr(r, vAnd(vhIsThree(s, j), row[j+3]))
+					r := false
+					for w := 1; w <= vhUTF8Max; w++ {
+						if j+w <= n {
+							r = vOr(r, vAnd(vhIsW(s, j, w), row[j+w]))
+						}
 					}
 					return r
 				}
 				star = vOr(star, after(M[i]))
 				any = after(M[i+1])
 				ch := vhRuneAt(s, j)
-				// literal character (one or two pattern bytes)
-				oneP := func(q int) bool { return vAnd(vNot(vhIsTwo(p, q)), vNot(vhIsThree(p, q))) }
-				lit = vAnd(vAnd(oneP(i), vEqInt(ch, int(c))), after(M[i+1]))
-				if i+1 < m {
-					lit = vOr(lit, vAnd(vAnd(vhIsTwo(p, i), vEqInt(ch, vhRuneAt(p, i))), after(M[i+2])))
-				}
-				if i+2 < m {
-					lit = vOr(lit, vAnd(vAnd(vhIsThree(p, i), vEqInt(ch, vhRuneAt(p, i))), after(M[i+3])))
-				}
-				if i+1 < m {
-					esc = vAnd(vAnd(oneP(i+1), vEqInt(ch, int(p[i+1]))), after(M[i+2]))
-					if i+2 < m {
-						esc = vOr(esc, vAnd(vAnd(vhIsTwo(p, i+1), vEqInt(ch, vhRuneAt(p, i+1))), after(M[i+3])))
+				// literal character (1..4 pattern bytes), plain or escaped
+				for w := 1; w <= vhUTF8Max; w++ {
+					if i+w-1 < m {
+						pr := int(c)
+						if w > 1 {
+							pr = vhRuneAt(p, i)
+						}
+						lit = vOr(lit, vAnd(vAnd(vhIsW(p, i, w), vEqInt(ch, pr)), after(M[i+w])))
 					}
-					if i+3 < m {
-						esc = vOr(esc, vAnd(vAnd(vhIsThree(p, i+1), vEqInt(ch, vhRuneAt(p, i+1))), after(M[i+4])))
+					if i+w < m {
+						pr := int(p[i+1])
+						if w > 1 {
+							pr = vhRuneAt(p, i+1)
+						}
+						esc = vOr(esc, vAnd(vAnd(vhIsW(p, i+1, w), vEqInt(ch, pr)), after(M[i+1+w])))
 					}
 				}
 				mNext := make([]bool, m+2)
@@ -230,24 +246,55 @@ func vhC17U(p, s string) {
 
 // a = {pattern length, name length}: every byte arbitrary below 0xE0, both strings valid UTF-8
 func vh_C17_utf8(a []int) {
-	vhThreeByte = false
+	vhUTF8Max = 2
 	vhC17U(vBytes("pat", a[0]), vBytes("name", a[1]))
 }
 
 // a = {#symbolic bytes inside the class, name length}: pattern "*[" X "]"
 func vh_C17_utf8_starclass(a []int) {
-	vhThreeByte = false
+	vhUTF8Max = 2
 	vhC17U("*["+vBytes("cls", a[0])+"]", vBytes("name", a[1]))
 }
 
 // vh_C17_utf8_3: one-, two- and three-byte characters (U+0000..U+FFFF without surrogates).
 // a = {shape (0: pattern fully symbolic, 1: pattern "[" X "]"), #symbolic pattern bytes, name length}
 func vh_C17_utf8_3(a []int) {
-	vhThreeByte = true
+	vhUTF8Max = 3
 	p := vBytes("pat", a[1])
 	if a[0] == 1 {
 		p = "[" + p + "]"
 	}
 	vhC17U(p, vBytes("name", a[2]))
-	vhThreeByte = false
+	vhUTF8Max = 2
+}
+
+// vh_C17_utf8_4: all of Unicode (characters of one to four bytes).
+// a = {shape, #symbolic pattern bytes, name length}; shapes: 0 pattern fully symbolic, 1 "[" X "]",
+// 2 "*[^" X "]", 3 "*[" X "]", 4 "*" X, 5 "?" X; optional a[3], a[4]: width of the first character of X / of
+// the name (0: free) — the case split over the character widths that keeps the queries small
+func vh_C17_utf8_4(a []int) {
+	vhUTF8Max = 4
+	x := vBytes("pat", a[1])
+	if len(a) > 3 && a[3] > 0 {
+		vAssume(vhIsW(x, 0, a[3]))
+	}
+	p := x
+	switch a[0] {
+	case 1:
+		p = "[" + x + "]"
+	case 2:
+		p = "*[^" + x + "]"
+	case 3:
+		p = "*[" + x + "]"
+	case 4:
+		p = "*" + x
+	case 5:
+		p = "?" + x
+	}
+	name := vBytes("name", a[2])
+	if len(a) > 4 && a[4] > 0 {
+		vAssume(vhIsW(name, 0, a[4]))
+	}
+	vhC17U(p, name)
+	vhUTF8Max = 2
 }
